@@ -328,6 +328,45 @@ def _symbolic_paths(case, eps_mode):
             r.defined = [t for kind, t in sess.defined if kind == "division"]
             if rep_ok is not None:
                 fr.append(("repeat-gives-identical-result", rep_ok))
+            if case.check_frame and case.check_repeat and fin is None:
+                # a second backward over the SAME recorded graph (leaf buffers reset in between, same upstream gradient) delivers the same
+                # gradients: nothing a backward function saved or computed may have been consumed or edited by the first sweep
+                try:
+                    for l in case.leaves:
+                        T[l.name]._grad = None
+                    out.backward(Tensor(gsnap.copy()))
+                    again = True
+                    for l in case.leaves:
+                        g1, g2 = r.grads[l.name], T[l.name]._grad
+                        if (g1 is None) != (g2 is None):
+                            again = False
+                        elif g1 is not None:
+                            a1, a2 = np.asarray(g1, dtype=object), np.asarray(g2, dtype=object)
+                            again = again and a1.shape == a2.shape and all(_same_term(x, y) for x, y in zip(a1.ravel(), a2.ravel()))
+                except PathBudgetExceeded:
+                    raise
+                except Exception:
+                    again = False
+                fr.append(("second-backward-over-the-same-graph-gives-the-same-gradients", again))
+                # an operand that was frozen AFTER it received a gradient is a constant of every later graph: its stale buffer must not be touched
+                req = [l for l in case.leaves if l.requires_grad]
+                if len(req) >= 2 and again:
+                    lz = req[-1]
+                    tz = T[lz.name]
+                    try:
+                        buf = tz._grad
+                        snap_ = None if buf is None else list(np.asarray(buf, dtype=object).ravel())
+                        tz.requires_grad = False
+                        out3 = case.build(T, dict(scal))
+                        if out3.requires_grad:
+                            out3.backward(Tensor(symarr("g", np.shape(out3.data))))
+                        kept = tz._grad is buf and (buf is None or all(x is y for x, y in zip(np.asarray(buf, dtype=object).ravel(), snap_)))
+                    except PathBudgetExceeded:
+                        raise
+                    except Exception:
+                        kept = None         # the rebuilt graph is not this obligation's business (e.g. a layer that re-wraps its parameters)
+                    if kept is not None:
+                        fr.append(("frozen-operand[%s]-keeps-its-stale-gradient" % lz.name, kept))
             if fin is not None:
                 fr.extend(fin())
             r.frames = fr
@@ -434,6 +473,13 @@ def _run_mode(case, seed, eps_mode, want_post, probe=False):
                 out["obligations"] += 1
                 if ok:
                     bump("syntactic")
+                elif fname.startswith("second-backward"):
+                    rep = _replay_second_backward(case, sess, pc, rng, out_shape)
+                    if rep.get("reproduced"):
+                        out["failures"].append({"obligation": case.name + ".backward.repeatable", "what": "a second backward over the same graph (leaf gradients reset, same upstream "
+                                                "gradient) gives %s, the first gave %s" % (rep.get("second"), rep.get("first")), "replay": rep, "reproduced": True})
+                    else:
+                        out["errors"].append("%s: the symbolic second backward differs from the first but the native replay does not (%s)" % (case.name, rep))
                 else:
                     out["failures"].append({"obligation": case.name + ".frame." + fname, "what":
                                             "frame/ghost fact '%s' does not hold after forward+backward" % fname,
@@ -635,11 +681,68 @@ def _replay_numeric(case, sess, pc, model, rng, out_shape, leaf, elem):
         bad = [idx for idx in np.ndindex(*fd.shape)] if fd.ndim else [()]
         bad = [idx for idx in bad if not close(float(gi[idx]), float(fd[idx]), scale)]
         if bad:
+            # a point the path condition pins (x == const) may be a kink of the function: there any value between the one-sided derivatives is a
+            # valid subgradient. One-sided differences decide it (they agree wherever the function is differentiable).
+            try:
+                f0 = native_forward(case, p)
+                names = var_names(leaf.name, leaf.shape)
+                still = []
+                for idx in bad:
+                    n_ = names[int(np.ravel_multi_index(idx, leaf.shape))] if leaf.shape else names[0]
+                    hh = 1e-6 * max(1.0, abs(p[n_]))
+                    pp, pm = dict(p), dict(p)
+                    pp[n_] += hh
+                    pm[n_] -= hh
+                    gq = np.array([p[n] for n in var_names("g", out_shape)], dtype=np.float64).reshape(out_shape)
+                    dplus = float(np.sum(gq * (native_forward(case, pp) - f0))) / hh
+                    dminus = float(np.sum(gq * (f0 - native_forward(case, pm)))) / hh
+                    lo, hi = min(dplus, dminus), max(dplus, dminus)
+                    kink = np.isfinite(lo) and np.isfinite(hi) and not close(dplus, dminus, scale)
+                    if kink and lo - TOL * max(1.0, scale) <= float(gi[idx]) <= hi + TOL * max(1.0, scale):
+                        rep["kink_points_accepted"] = rep.get("kink_points_accepted", 0) + 1
+                        continue
+                    still.append(idx)
+                bad = still
+            except Exception:
+                pass
+        if bad:
             rep.update({"reproduced": True, "inputs": p, "element": list(bad[0]), "actual": float(gi[bad[0]]),
                         "expected": float(fd[bad[0]]), "actual_grad": gi.tolist(), "expected_grad_finite_differences": fd.tolist(),
                         "oracle": "central finite differences of the real forward (float64)"})
             return rep
     rep["points_tried"] = tried
+    return rep
+
+
+def _replay_second_backward(case, sess, pc, rng, out_shape):
+    """natively: forward once, backward twice over the same graph with the leaf gradients reset in between"""
+    from synapgrad.tensor import Tensor
+    rep = {"reproduced": False}
+    for p in _candidate_points(case, sess, pc, None, rng, out_shape, n_random=40):
+        if not _pc_holds(list(sess.pre) + list(pc), p):
+            continue
+        try:
+            with shim.native():
+                T, K = _native_leaves(case, p)
+                out = case.build(T, K)
+                g = np.array([p[n] for n in var_names("g", out.shape)], dtype=np.float64).reshape(out.shape)
+                out.backward(Tensor(g.copy()))
+                first = {l.name: (None if T[l.name]._grad is None else np.array(T[l.name]._grad, dtype=np.float64)) for l in case.leaves}
+                for l in case.leaves:
+                    T[l.name]._grad = None
+                out.backward(Tensor(g.copy()))
+                second = {l.name: (None if T[l.name]._grad is None else np.array(T[l.name]._grad, dtype=np.float64)) for l in case.leaves}
+        except Exception as e:
+            rep.update({"reproduced": True, "inputs": p, "native_exception": "%s: %s" % (type(e).__name__, str(e)[:300])})
+            return rep
+        for l in case.leaves:
+            a, b = first[l.name], second[l.name]
+            if (a is None) != (b is None) or (a is not None and (a.shape != b.shape or not np.allclose(a, b, rtol=1e-9, atol=1e-12))):
+                rep.update({"reproduced": True, "inputs": p, "operand": l.name, "first": None if a is None else a.tolist(), "second": None if b is None else b.tolist()})
+                return rep
+        rep["native"] = "both sweeps agree"
+        return rep
+    rep["native"] = "no point on path found"
     return rep
 
 
